@@ -160,6 +160,12 @@ def _build_func_identifier(func):
 # source code to check if a function definition has changed
 _FUNCTION_HASHES = weakref.WeakKeyDictionary()
 
+# For each function identifier, a weak reference to the function whose code was
+# last written to the store by this process: another function with the same
+# identifier (e.g. an older definition that is still referenced) cannot rely on
+# the in-memory store above, as the code on disk is no longer its own.
+_LAST_FUNC_CODE_WRITERS = dict()
+
 
 ###############################################################################
 # class `MemorizedResult`
@@ -677,6 +683,7 @@ class MemorizedFunc(Logger):
             func_hash = self._hash_func()
             try:
                 _FUNCTION_HASHES[self.func] = func_hash
+                _LAST_FUNC_CODE_WRITERS[self.func_id] = weakref.ref(self.func)
             except TypeError:
                 # Some callable are not hashable
                 pass
@@ -696,7 +703,12 @@ class MemorizedFunc(Logger):
                 # hash. This is more likely to falsely change than have hash
                 # collisions, thus we are on the safe side.
                 func_hash = self._hash_func()
-                if func_hash == _FUNCTION_HASHES[self.func]:
+                last_writer = _LAST_FUNC_CODE_WRITERS.get(self.func_id)
+                if (
+                    func_hash == _FUNCTION_HASHES[self.func]
+                    and last_writer is not None
+                    and last_writer() is self.func
+                ):
                     return True
         except TypeError:
             # Some callables are not hashable
@@ -1136,6 +1148,7 @@ class Memory(Logger):
             # table, results cached after this clear will be have cache miss
             # as the function code is not re-written.
             _FUNCTION_HASHES.clear()
+            _LAST_FUNC_CODE_WRITERS.clear()
 
     def reduce_size(self, bytes_limit=None, items_limit=None, age_limit=None):
         """Remove cache elements to make the cache fit its limits.
